@@ -615,6 +615,33 @@ Proof.
   - intros [].
 Qed.
 
+(* a Go function called from a run loop *)
+Lemma native_call_inv : forall n (f : state -> state * outcome) s,
+  (forall s2, GInv PostG s2 (f s2)) -> GInv PostJ s (native_call lim fixed ex n f s).
+Proof.
+  intros n f s Hf. unfold native_call. set (s1 := add_sp (2 + n) s).
+  destruct (over lim s1).
+  { apply raise_inv; auto. apply Ext_same; reflexivity. }
+  set (s2 := set_sb (sp s1 - n) (set_prg false (push_ctx s1))).
+  destruct (Hf s2) as (A & B & C).
+  assert (T2 : TopOK s2) by (apply TopOK_ne; discriminate).
+  destruct (f s2) as [s3 o]. simpl in A, B, C. destruct o.
+  - eapply (GInv_map PostJ s s2 s3 _ _ (PostG s2 s3 ONorm)); eauto; try reflexivity.
+    { unfold dv. cbn. rewrite leaked_pop_ctx. reflexivity. }
+    intros k T. simpl in k. apply regs_inv in k. destruct k as (c1 & c2 & c3 & c4 & c5 & c6 & c7 & c8 & c9).
+    simpl. unfold s2, s1 in *. cbn in c1, c2, c3, c4, c5, c6, c7, c8, c9.
+    rewrite (pop_ctx_eq s3 _ _ c6). rsolve.
+  - split; [|split]; simpl in *; auto.
+  - split; [|split]; simpl in *; auto.
+  - eapply (raiseE_inv' true p s s2 s3 (PostG s2 s3 (OPanic p))); eauto; try reflexivity.
+    intros k T. simpl in k. destruct k as (c2 & c3 & c4 & c5 & c6 & c7 & c8 & c9). split; [|exact c7].
+    exists [cur_ctx s1], [], 0%nat. split. constructor; simpl; auto. reflexivity.
+  - split; [|split]; simpl in *; auto.
+  - split; [|split]; simpl in *; auto.
+Qed.
+
+
+
 
 (*INSERT*)
 (* ---- JS function called from a run loop ---- *)
@@ -922,7 +949,7 @@ Proof.
   destruct o.
   - apply (forof_loop_inv next body (id, ret) n s s1 (set_its ((id, ret) :: its s1) (add_sp (-1) s1)) _ Ch eq_refl).
     intros R. simpl in R. apply regs_inv in R. destruct R as (c1 & c2 & c3 & c4 & c5 & c6 & c7 & c8 & c9). cbn in *.
-    rsolve. Show.
+    rsolve. rewrite c8. reflexivity.
   - apply Chain_GInv. simpl. eapply Chain_state; eauto.
   - apply Chain_GInv. simpl. eapply Chain_state; eauto.
   - eapply (Chain_raiseE true p s s1); eauto. intros (c2 & c3 & c4 & c5 & c6 & c7 & c8 & c9) T. cbn in *.
@@ -942,9 +969,9 @@ Lemma gen_enter_next_eq : forall extra s,
   gen_enter_next lim extra s = if over lim s then (s, OPanic PSO) else (gns extra s, ONorm).
 Proof. reflexivity. Qed.
 Lemma gen_enter_eq : forall sa,
-  gen_enter lim fixed sa =
+  gen_enter lim sa =
     if over lim sa then (sa, OPanic PSO)
-    else if over lim (ge1 sa) then ((if fixed then pop_ctx (pop_try (ge1 sa)) else deviate 16 (ge1 sa)), OPanic PSO)
+    else if over lim (ge1 sa) then (pop_ctx (pop_try (ge1 sa)), OPanic PSO)
     else (ge2 sa, ONorm).
 Proof. reflexivity. Qed.
 
@@ -955,16 +982,13 @@ Lemma gen_abort_inv : forall s3 s4 s5 p (K : Prop),
   (dv s5 = dv s4 -> K) ->
   (K -> cs s5 = cur_ctx s3 :: cs s3 /\ its s5 = its s3 /\ refs s5 = refs s3 /\ sp s5 = sp s3 /\
         ts s5 = new_frame true false false (push_ctx s3) :: ts s3) ->
-  GInv PostG s3 (gen_abort fixed s5 p, OPanic p).
+  GInv PostG s3 (gen_abort s5 p, OPanic p).
 Proof.
   intros s3 s4 s5 p K D A B C H. unfold gen_abort.
-  destruct (catchable p || fixed) eqn:Hc.
-  - eapply (GInv_map PostG s3 s4 s5 _ _ K); eauto.
-    { unfold dv. rewrite leaked_pop_ctx. reflexivity. }
-    intros k T. destruct (H k) as (c6 & c8 & c9 & c1 & c7). simpl. unfold same_but_sp.
-    rewrite (pop_ctx_eq (pop_try s5) (cur_ctx s3) (cs s3)) by exact c6. cbn. rewrite c7. cbn. auto 10.
-  - apply orb_false_elim in Hc. destruct Hc as (_ & Hf).
-    split; [|split]; simpl; rewrite ?dv_deviate; try lia. congruence.
+  eapply (GInv_map PostG s3 s4 s5 _ _ K); eauto.
+  { unfold dv. rewrite leaked_pop_ctx. reflexivity. }
+  intros k T. destruct (H k) as (c6 & c8 & c9 & c1 & c7). simpl. unfold same_but_sp.
+  rewrite (pop_ctx_eq (pop_try s5) (cur_ctx s3) (cs s3)) by exact c6. cbn. rewrite c7. cbn. auto 10.
 Qed.
 
 Lemma gns_facts : forall extra s3,
@@ -979,7 +1003,7 @@ Proof.
   repeat split; reflexivity.
 Qed.
 
-Lemma gen_resume_inv : forall extra seg s3, GInv PostG s3 (gen_resume lim fixed ex extra seg s3).
+Lemma gen_resume_inv : forall extra seg s3, GInv PostG s3 (gen_resume lim ex extra seg s3).
 Proof.
   intros extra seg s3. unfold gen_resume. rewrite gen_enter_next_eq.
   destruct (over lim s3). { apply GInv_ret; auto. intros _. simpl. unfold same_but_sp; auto 10. }
@@ -1004,14 +1028,7 @@ Qed.
 Lemma fixed_cases : fixed = true \/ fixed = false.
 Proof. destruct fixed; auto. Qed.
 
-Lemma raise_deviated : forall p s sd id, dv sd = dv s -> fixed = false -> GInv PostJ s (raise p (deviate id sd)).
-Proof.
-  intros p s sd id D F. eapply (raise_inv' p s s (deviate id sd) False); try reflexivity.
-  - rewrite dv_deviate. lia.
-  - intros F'. congruence.
-  - rewrite dv_deviate. lia.
-  - intros [].
-Qed.
+
 
 Lemma ge2_facts : forall sa,
   ts (ge2 sa) = new_frame true false false (push_ctx sa) :: ts (push_ctx sa) /\
@@ -1023,15 +1040,18 @@ Proof.
   repeat split; reflexivity.
 Qed.
 
+Lemma if_true : forall (A : Type) (b : bool) (x y : A), b = true -> (if b then x else y) = x.
+Proof. intros. subst. reflexivity. Qed.
+Lemma if_false : forall (A : Type) (b : bool) (x y : A), b = false -> (if b then x else y) = y.
+Proof. intros. subst. reflexivity. Qed.
+
 Lemma gen_node_inv : forall seg s, GInv PostJ s (gen_node lim fixed ex seg s).
 Proof.
   intros seg s. unfold gen_node. rewrite gen_enter_eq. set (sa := add_sp 2 s).
   assert (Ea : Ext s sa) by (apply Ext_same; reflexivity).
-  destruct (over lim sa). { apply raise_inv; auto. }
+  destruct (over lim sa). { apply raiseE_inv; auto. }
   destruct (over lim (ge1 sa)).
-  { destruct fixed_cases as [F|F]; rewrite F.
-    - apply raise_inv; try reflexivity. apply Ext_same; reflexivity.
-    - apply raise_deviated; auto. }
+  { apply raiseE_inv; try reflexivity. apply Ext_same; reflexivity. }
   cbv iota beta.
   set (sx := set_sp (sp s) (gen_leave (ge2 sa))).
   assert (R : regs sx = regs s) by reflexivity.
@@ -1043,11 +1063,9 @@ Lemma async_node_inv : forall seg1 seg2 s, GInv PostJ s (async_node lim fixed ex
 Proof.
   intros seg1 seg2 s. unfold async_node. rewrite gen_enter_eq. set (sa := add_sp 2 s).
   assert (Ea : Ext s sa) by (apply Ext_same; reflexivity).
-  destruct (over lim sa). { apply raise_inv; auto. }
+  destruct (over lim sa). { apply raiseE_inv; auto. }
   destruct (over lim (ge1 sa)).
-  { destruct fixed_cases as [F|F]; rewrite F.
-    - apply raise_inv; try reflexivity. apply Ext_same; reflexivity.
-    - apply raise_deviated; auto. }
+  { apply raiseE_inv; try reflexivity. apply Ext_same; reflexivity. }
   cbv iota beta.
   destruct (ge2_facts sa) as (Hts & HE & Hcs & Hsb & Hdv & Hits & Hrefs).
   set (s4 := ge2 sa) in *. clearbody s4.
@@ -1071,20 +1089,17 @@ Proof.
       intros k T. destruct (C k HT) as (c1 & c2 & c3 & c4 & c5 & c6 & _). simpl.
       rewrite (pop_ctx_eq (pop_try s5) (cur_ctx sa) (cs sa)) by (cbn; rewrite c1; reflexivity).
       unfold sa in *. cbn in *. rewrite Hts in c6. rsolve.
-    + unfold gen_abort. rewrite Hc. cbn [orb].
-      destruct fixed_cases as [F|F]; rewrite F.
-      * assert (Dp : dv (pop_ctx (pop_try s5)) = dv s5) by (unfold dv; rewrite leaked_pop_ctx; reflexivity).
-        eapply (raise_inv' p s s4 (pop_ctx (pop_try s5)) (dv s5 = dv s4)); eauto; try (rewrite Dp; auto).
-        intros k T. destruct (C k HT) as (c1 & c2 & c3 & c4 & c5 & c6 & _).
-        rewrite (pop_ctx_eq (pop_try s5) (cur_ctx sa) (cs sa)) by (cbn; rewrite c1; reflexivity).
-        unfold sa in *. cbn in *. rewrite Hts in c6. split. apply Ext_same; cbn; congruence. cbn. rewrite c6. reflexivity.
-      * eapply (raise_inv' p s s4 (deviate 16 s5) False); eauto.
-        { rewrite dv_deviate. lia. } { congruence. } { rewrite dv_deviate. lia. } { intros []. }
+    + unfold gen_abort.
+      assert (Dp : dv (pop_ctx (pop_try s5)) = dv s5) by (unfold dv; rewrite leaked_pop_ctx; reflexivity).
+      eapply (raiseE_inv' true p s s4 (pop_ctx (pop_try s5)) (dv s5 = dv s4)); eauto; try (rewrite Dp; auto).
+      intros k T. destruct (C k HT) as (c1 & c2 & c3 & c4 & c5 & c6 & _).
+      rewrite (pop_ctx_eq (pop_try s5) (cur_ctx sa) (cs sa)) by (cbn; rewrite c1; reflexivity).
+      unfold sa in *. cbn in *. rewrite Hts in c6. split. apply Ext_same; cbn; congruence. cbn. rewrite c6. reflexivity.
   - split; [|split]; simpl in *; [lia | intros F; rewrite B; auto | auto].
 Qed.
 
 (* ---- Go-level loops and boundaries ---- *)
-Lemma vm_try_cases : forall f s, match snd (vm_try f s) with OCaught _ _ _ => False | _ => True end.
+Lemma vm_try_cases : forall f s, match snd (vm_try f s) with OCaught _ _ _ | OEscaped _ => False | _ => True end.
 Proof.
   intros f s. unfold vm_try. destruct (f (push_try true false false s)) as [s2 o]. destruct o; simpl; auto.
   destruct (catchable p); simpl; auto.
@@ -1127,18 +1142,13 @@ Proof.
 Qed.
 
 (* recursive RunProgram *)
-Lemma nrun_rec_inv : forall sw body s, GInv PostL s (nrun_rec lim fixed ex sw body s).
+Lemma nrun_rec_inv : forall sw body s, GInv PostL s (nrun_rec lim ex sw body s).
 Proof.
   intros sw body s. unfold nrun_rec.
   destruct (over lim s).
-  { destruct fixed_cases as [F|F]; rewrite F.
-    - unfold policy. cbn [catchable andb]. apply GInv_ret.
-      + destruct (Nat.eqb (length (cs s)) 0); reflexivity.
-      + intros _. simpl. destruct (Nat.eqb (length (cs s)) 0); reflexivity.
-    - unfold policy. cbn [catchable andb]. split; [|split]; simpl.
-      + unfold dv. destruct (Nat.eqb _ 0); cbn; rewrite ?leaked_pop_ctx; cbn; lia.
-      + congruence.
-      + unfold dv. destruct (Nat.eqb _ 0); cbn; rewrite ?leaked_pop_ctx; cbn; lia. }
+  { unfold policy. cbn [catchable andb]. apply GInv_ret.
+    + destruct (Nat.eqb (length (cs s)) 0); reflexivity.
+    + intros _. simpl. destruct (Nat.eqb (length (cs s)) 0); reflexivity. }
   set (s1 := set_prg true (add_sp 2 (set_sb (sp s + 1) (set_args 0 (set_stash 0 (push_ctx s)))))).
   set (s4 := push_try true false false s1).
   assert (Hts : ts s4 = new_frame true false false s1 :: ts s1) by reflexivity.
@@ -1177,18 +1187,15 @@ Variable lv : state -> state * outcome.
 Hypothesis Hlv : forall s, GInv PostL s (lv s).
 
 Lemma host_panic_exit_facts : forall s,
-  regs (host_panic_exit fixed s) = regs s /\ (dv s <= dv (host_panic_exit fixed s))%nat /\
-  (fixed = true -> dv (host_panic_exit fixed s) = dv s).
+  regs (host_panic_exit s) = regs s /\ (dv s <= dv (host_panic_exit s))%nat /\
+  (fixed = true -> dv (host_panic_exit s) = dv s).
 Proof.
-  intros s. unfold host_panic_exit. destruct (Nat.eqb (length (cs s)) 0); [|auto].
-  destruct fixed_cases as [F|F]; rewrite F.
-  - split; [reflexivity|]. split; auto.
-  - destruct (jq s); [auto|]. split; [reflexivity|]. split. rewrite dv_deviate. lia. congruence.
+  intros s. unfold host_panic_exit. destruct (Nat.eqb (length (cs s)) 0); auto.
 Qed.
 
 Lemma recover_wrapped_inv : forall s s2 p (K : Prop),
   Chain s s2 K -> (K -> TopOK s -> regs s2 = regs s) ->
-  GInv PostL s (fst (recover_wrapped fixed s2 p)).
+  GInv PostL s (fst (recover_wrapped s2 p)).
 Proof.
   intros s s2 p K Ch HK. unfold recover_wrapped. destruct (uncatchable_err p).
   - simpl. apply Chain_GInv. simpl. eapply Chain_state; eauto.
@@ -1203,7 +1210,7 @@ Qed.
 
 Lemma wrapped_tail_inv : forall s s1 err (K : Prop),
   Chain s s1 K -> (K -> TopOK s -> regs s1 = regs s) ->
-  GInv PostL s (fst (wrapped_tail fixed lv s1 err)).
+  GInv PostL s (fst (wrapped_tail lv s1 err)).
 Proof.
   intros s s1 err K Ch HK. unfold wrapped_tail.
   destruct (Nat.eqb (length (cs s1)) 0).
@@ -1216,11 +1223,12 @@ Proof.
     + apply Chain_GInv. simpl. eapply Chain_state; eauto. intros (k & R) T. simpl in R. contradiction.
     + apply Chain_GInv. simpl. eapply Chain_state; eauto. intros (k & R) T. simpl in R. contradiction.
     + eapply recover_wrapped_inv; eauto. intros (k & R) T. simpl in R. rewrite R. auto.
+    + apply Chain_GInv. simpl. eapply Chain_state; eauto. intros (k & R) T. simpl in R. contradiction.
     + apply Chain_GInv. simpl. eapply Chain_state; eauto.
   - simpl. apply Chain_GInv. simpl. eapply Chain_state; eauto.
 Qed.
 
-Lemma run_wrapped_inv : forall body s, GInv PostL s (fst (run_wrapped lim fixed ex lv body s)).
+Lemma run_wrapped_inv : forall body s, GInv PostL s (fst (run_wrapped lim ex lv body s)).
 Proof.
   intros body s. unfold run_wrapped.
   pose proof (vm_try_inv (reentry lim ex 0 body) s (reentry_inv 0 body)) as G.
@@ -1233,7 +1241,7 @@ Proof.
   - simpl. exact (GInv_weaken _ _ _ _ (fun _ _ H => H) G) || (destruct G as (A & B & C); split; [|split]; simpl in *; auto).
 Qed.
 
-Lemma probe_act_inv : forall s2, GInv PostG s2 (probe_act lim faults fixed ex lv s2).
+Lemma probe_act_inv : forall s2, GInv PostG s2 (probe_act lim faults ex lv s2).
 Proof.
   intros s2. unfold probe_act.
   destruct (lookup_fault faults (pcount s2)) as [[| | |]|].
@@ -1242,7 +1250,7 @@ Proof.
   - apply GInv_ret; auto. intros _. simpl. reflexivity.
   - set (s3 := snapshot (set_pcount (S (pcount s2)) s2)).
     pose proof (run_wrapped_inv [Rec] s3) as G.
-    destruct (run_wrapped lim fixed ex lv [Rec] s3) as [[s4 o] e]. simpl in G.
+    destruct (run_wrapped lim ex lv [Rec] s3) as [[s4 o] e]. simpl in G.
     assert (G' : GInv PostL s2 (s4, o)).
     { apply (GInv_regs_base PostL s2 s3 _ PostL_base); auto. }
     destruct o; try (eapply GInv_weaken; [|exact G']; intros; apply PostL_PostG; auto).
@@ -1261,7 +1269,7 @@ Lemma async_job_inv : forall seg s1,
      | (s2, ONorm) =>
          match loop_out (run_items ex seg (add_sp (-1) s2)) with
          | (s3, ONorm) => (pop_ctx (pop_try (add_sp (-1) (pop_ctx (set_sp (sb s3) s3)))), ONorm)
-         | (s3, OPanic p) => if catchable p then (pop_ctx (pop_try s3), ONorm) else (gen_abort fixed s3 p, OPanic p)
+         | (s3, OPanic p) => if catchable p then (pop_ctx (pop_try s3), ONorm) else (gen_abort s3 p, OPanic p)
          | r => r
          end
      | r => r
@@ -1296,24 +1304,24 @@ Proof.
 Qed.
 
 Lemma run_job_inv : forall j s,
-  GInv PostR s (run_job lim fixed ex j s) /\
-  match snd (run_job lim fixed ex j s) with OCaught _ _ _ => False | _ => True end.
+  GInv PostR s (run_job lim ex j s) /\
+  match snd (run_job lim ex j s) with OCaught _ _ _ | OEscaped _ => False | _ => True end.
 Proof.
   intros j s. unfold run_job. destruct j as [body|seg].
   - split. apply (vm_try_inv (reentry lim ex 1 body) s (reentry_inv 1 body)). apply vm_try_cases.
   - split. apply vm_try_inv. intros s1. apply (async_job_inv seg s1). apply vm_try_cases.
 Qed.
 
-Lemma run_batch_inv : forall js s, GInv PostL s (run_batch lim fixed ex js s).
+Lemma run_batch_inv : forall js s, GInv PostL s (run_batch lim ex js s).
 Proof.
   induction js as [|j rest IH]; intros s; simpl.
   - apply GInv_ret; simpl; auto.
-  - destruct (run_job_inv j s) as (G & Sh). destruct (run_job lim fixed ex j s) as [s1 o]. simpl in Sh.
-    assert (Hnext : o <> OStuck -> GInv PostL s (run_batch lim fixed ex rest s1)).
+  - destruct (run_job_inv j s) as (G & Sh). destruct (run_job lim ex j s) as [s1 o]. simpl in Sh.
+    assert (Hnext : o <> OStuck -> GInv PostL s (run_batch lim ex rest s1)).
     { intros Hs. apply Chain_GInv.
       eapply (Chain_bind PostL s s1 s1 _ (PostR s s1 o)); [exact G | reflexivity | apply IH | | ].
-      - intros R T. eapply TopOK_regs; [|exact T]. destruct o; simpl in R; auto; congruence.
-      - intros R T P. eapply PostL_base; [|exact P]. destruct o; simpl in R; auto; congruence. }
+      - intros R T. eapply TopOK_regs; [|exact T]. destruct o; simpl in R; auto; try contradiction; congruence.
+      - intros R T P. eapply PostL_base; [|exact P]. destruct o; simpl in R; auto; try contradiction; congruence. }
     destruct o; try contradiction.
     + apply Hnext; discriminate.
     + apply Hnext; discriminate.
@@ -1365,7 +1373,7 @@ Proof.
   destruct nd; simpl.
   - (* Probe *) apply WJ. apply native_call_inv. intros. apply probe_act_inv; auto.
   - (* Effect *) apply GInv_ret; simpl; auto.
-  - (* Throw *) apply WJ. apply raise_inv; auto using Ext_refl.
+  - (* Throw *) apply WJ. apply raiseE_inv; auto using Ext_refl.
   - (* Rec *) destruct lim as [m|].
     + destruct (rec_push_ext (S m - length (cs s)) s) as (E & T & D). apply WJ. apply raise_inv; eauto.
     + apply GInv_ret; simpl; auto.
@@ -1402,8 +1410,9 @@ Proof.
       apply regs_inv in R. destruct R as (c1 & c2 & c3 & c4 & c5 & c6 & c7 & c8 & c9). cbn in *. rsolve.
     + apply Chain_GInv. simpl. eapply Chain_state; eauto.
     + apply Chain_GInv. simpl. eapply Chain_state; eauto.
-    + eapply (Chain_raise p s s1); eauto. intros (c2 & c3 & c4 & c5 & c6 & c7 & c8 & c9) T. cbn in *.
+    + eapply (Chain_raiseE true p s s1); eauto. intros (c2 & c3 & c4 & c5 & c6 & c7 & c8 & c9) T. cbn in *.
       split; auto. apply Ext_same; auto.
+    + apply Chain_GInv. simpl. eapply Chain_state; eauto.
     + apply Chain_GInv. simpl. eapply Chain_state; eauto.
   - (* Native *) apply WJ. apply native_call_inv. intros. apply run_acts_inv.
   - (* Gen *) apply WJ. apply gen_node_inv.
@@ -1411,7 +1420,7 @@ Proof.
   - (* Then *) apply WJ. apply native_call_inv. intros s2. apply GInv_ret; simpl; auto.
   - (* NCallable *)
     pose proof (run_wrapped_inv lv Hlv body s) as G.
-    destruct (run_wrapped lim fixed ex lv body s) as [[s1 o] e]. simpl in G.
+    destruct (run_wrapped lim ex lv body s) as [[s1 o] e]. simpl in G.
     destruct o; try (apply WL; exact G).
     destruct e; [|apply WL; exact G].
     eapply policy_inv; [exact G|]. simpl. auto.
@@ -1448,7 +1457,7 @@ Lemma top_recover_inv : forall inb s s3 p (K : Prop),
   (K -> TopOK s -> cs s = [] ->
      cs s3 = [halt_ctx] /\ its s3 = its s /\ refs s3 = refs s /\ stash s3 = stash s /\ sp s3 = sp s /\
      ts s3 = ts s /\ args s3 = args s /\ (inb = true -> prg s3 = true) /\ (inb = false -> prg s3 = false /\ sb s3 = -1)) ->
-  GInv PostT s (fst (top_recover fixed inb s3 p)).
+  GInv PostT s (fst (top_recover inb s3 p)).
 Proof.
   intros inb s s3 p K Ch HK. unfold top_recover, top_fin.
   set (s0 := set_cs (tl (cs s3)) s3).
@@ -1461,25 +1470,17 @@ Proof.
     intros k T Cs. rewrite <- (Hreset k T Cs).
     destruct (HK k T Cs) as (c6 & _). rewrite c6. reflexivity.
   - simpl.
-    set (s' := if fixed then set_sb (-1) (set_prg false s0) else if inb && prg s0 then deviate 22 s0 else s0).
+    set (s' := set_sb (-1) (set_prg false s0)).
     destruct (host_panic_exit_facts s') as (R & A & B). destruct Ch as (C1 & C2 & C3).
     assert (D' : (dv s3 <= dv s')%nat /\ (fixed = true -> dv s' = dv s3) /\
                  (dv s' = dv s3 -> K -> TopOK s -> cs s = [] -> regs s' = regs s)).
-    { unfold s'. destruct fixed_cases as [F|F]; rewrite F.
-      - split; [reflexivity|]. split; [reflexivity|]. intros _. apply Hreset.
-      - destruct (inb && prg s0) eqn:Hb.
-        + rewrite dv_deviate. split; [unfold s0, dv; cbn; lia|]. split; [congruence|]. unfold s0, dv; cbn; lia.
-        + split; [reflexivity|]. split; [reflexivity|]. intros _ k T Cs.
-          destruct (HK k T Cs) as (c6 & c8 & c9 & c5 & c1 & c7 & c3 & c4t & c4f). destruct (T Cs) as (t1 & t2).
-          destruct inb.
-          * unfold s0 in Hb. cbn in Hb. rewrite (c4t eq_refl) in Hb. discriminate.
-          * destruct (c4f eq_refl) as (c4 & c2). unfold s0. rsolve. }
+    { unfold s'. split; [reflexivity|]. split; [reflexivity|]. intros _. apply Hreset. }
     destruct D' as (D1 & D2 & D3).
     split; [|split]; unfold PostT.
-    + change (dv s <= dv (host_panic_exit fixed s'))%nat. lia.
-    + change (fixed = true -> dv (host_panic_exit fixed s') = dv s). intros F. rewrite B, D2, C2; auto.
-    + change (dv (host_panic_exit fixed s') = dv s -> TopOK s -> cs s = [] -> regs (host_panic_exit fixed s') = regs s).
-      intros D T Cs. rewrite R. apply D3; auto. lia. apply C3; auto. lia.
+    + change (dv s <= dv (host_panic_exit s'))%nat. lia.
+    + change (fixed = true -> dv (host_panic_exit s') = dv s). intros F. rewrite B, D2, C2; auto.
+    + change (dv (host_panic_exit s') = dv s -> TopOK s -> cs s = [] -> regs (host_panic_exit s') = regs s).
+      intros D T Cs. rewrite R. apply D3; [reflexivity | apply C3; [lia | exact T] | exact T | exact Cs].
 Qed.
 
 Lemma top_leave_inv : forall s s2 err (K : Prop),
@@ -1487,7 +1488,7 @@ Lemma top_leave_inv : forall s s2 err (K : Prop),
   (K -> TopOK s -> cs s = [] ->
      cs s2 = [halt_ctx] /\ its s2 = its s /\ refs s2 = refs s /\ stash s2 = stash s /\ sp s2 = sp s /\
      tl (ts s2) = ts s /\ args s2 = args s) ->
-  GInv PostT s (fst (top_leave fixed lv s2 err)).
+  GInv PostT s (fst (top_leave lv s2 err)).
 Proof.
   intros s s2 err K Ch HK. unfold top_leave.
   set (sL := set_sb (-1) (set_prg false (pop_try s2))).
@@ -1506,10 +1507,11 @@ Proof.
     intros (k & R) T Cs. simpl in R. destruct (HK k T Cs) as (c6 & c8 & c9 & c5 & c1 & c7 & c3).
     apply regs_inv in R. destruct R as (r1 & r2 & r3 & r4 & r5 & r6 & r7 & r8 & r9). unfold sL in *. cbn in r1, r2, r3, r4, r5, r6, r7, r8, r9.
     do 7 (split; [congruence|]). split; [discriminate|]. intros _. split; try congruence.
+  - simpl. apply Chain_GInv. unfold PostT. simpl. eapply Chain_state; eauto. intros (k & R) T Cs. simpl in R. contradiction.
   - simpl. apply Chain_GInv. unfold PostT. simpl. eapply Chain_state; eauto.
 Qed.
 
-Lemma run_top_step_inv : forall body s, GInv PostT s (fst (run_top_step fixed ex lv body s)).
+Lemma run_top_step_inv : forall body s, GInv PostT s (fst (run_top_step ex lv body s)).
 Proof.
   intros body s. unfold run_top_step.
   set (s1 := set_prg true (set_cs (halt_ctx :: cs s) s)).
@@ -1559,7 +1561,7 @@ Lemma node_step_api : forall nd s,
 Proof.
   intros nd s Hnd. destruct nd; try contradiction; simpl.
   - pose proof (run_wrapped_inv lv Hlv body s) as G.
-    destruct (run_wrapped lim fixed ex lv body s) as [[s1 o] e]. simpl in G.
+    destruct (run_wrapped lim ex lv body s) as [[s1 o] e]. simpl in G.
     destruct o; try exact G. destruct e; [|exact G].
     eapply policy_invL; [exact G|]. simpl. auto.
   - destruct (Nat.ltb 0 (length (cs s))) eqn:Hl.
